@@ -702,7 +702,8 @@ def render_programs_xadd():
             "registers `xdst`, `xsrc` and offset `xoff`; `steps` instructions run before it -/",
             "structure XaddProg where", "  name : String", "  loc : Bool", "  addr : Nat", "  n : Nat", "  voff : Nat", "  other : Nat",
             "  kind : Nat", "  neg : Bool", "  const : Int", "  mul : Int", "  scale : Int", "  areg : Nat", "  fd : Int", "  size : Nat",
-            "  xpos : Nat", "  steps : Nat", "  xdst : Nat", "  xsrc : Nat", "  xoff : Int", "  prog : List Insn"]
+            "  xpos : Nat", "  steps : Nat", "  xdst : Nat", "  xsrc : Nat", "  xoff : Int", "  prog : List Insn",
+            "deriving DecidableEq"]
     body, groups = [], {}
     b = lambda x: "true" if x else "false"
     for m in xadd_family():
